@@ -71,6 +71,30 @@ func (e *Engine) callFunction(f *frame, fn *ssa.Function, args []Val, bindings [
 			if e.isSpecFunc(fn) {
 				return e.freshPred(f, argVals)
 			}
+		case "verifVisited":
+			if e.isSpecFunc(fn) {
+				// verifVisited(m, k): key k has already been produced by the active iteration over m
+				mi, isMI := argVals[0].(*ssa.MakeInterface)
+				if !isMI {
+					bail("verifVisited of an interface value")
+				}
+				mv := e.operand(f, mi.X)
+				var it *mapIter
+				for _, cand := range e.iters {
+					if len(cand.m.C) == 1 && len(mv.C) == 1 && cand.m.C[0] == mv.C[0] {
+						it = cand
+					}
+				}
+				if it == nil {
+					bail("verifVisited: no active iteration over this map")
+				}
+				kw := it.mi.ksort.W
+				kt := args[1].C[0]
+				if kw < 64 {
+					kt = e.X.Extract(kw-1, 0, kt)
+				}
+				return e.boolVal(e.X.Select(f.st.Cells[it.cell].C[0], kt))
+			}
 		case "verifSeparate":
 			if e.isSpecFunc(fn) {
 				var refs []*smt.Term
@@ -755,6 +779,48 @@ func (e *Engine) callOpaque(f *frame, fn *ssa.Function, args []Val) Val {
 		res.C = append(res.C, X.App(fmt.Sprintf("spec|%s|%d", fn.String(), i), c.Sort, flat...))
 	}
 	if e.unfolding[fn] {
+		return res
+	}
+	// the defining equation, universally quantified over the integer parameters (the slice /
+	// array parameters are the ones of this call), once per such combination
+	ukey := fn.String()
+	for i, a := range args {
+		if _, isBasic := a.T.Underlying().(*types.Basic); !isBasic {
+			for _, c := range a.C {
+				ukey += fmt.Sprintf("|%d:%d", i, c.ID())
+			}
+		}
+	}
+	if e.Recursive[fn] && !e.unfolded[ukey] {
+		e.unfolded[ukey] = true
+		var bvs []*smt.Term
+		qargs := make([]Val, len(args))
+		for i, a := range args {
+			qargs[i] = a
+			if b, isBasic := a.T.Underlying().(*types.Basic); isBasic && b.Info()&types.IsInteger != 0 {
+				bv := X.BVar("u", a.C[0].S)
+				bvs = append(bvs, bv)
+				qargs[i] = Val{T: a.T, C: []*smt.Term{bv}}
+			}
+		}
+		if len(bvs) > 0 {
+			e.unfolding[fn] = true
+			e.specDepth++
+			saved := e.pc
+			e.pc = X.True
+			lhs := e.callOpaque(f, fn, qargs) // with unfolding set: just the application
+			body, _, _ := e.runFunc(fn, qargs, nil, f.st.clone(), nil)
+			var eqs []*smt.Term
+			for i := range lhs.C {
+				eqs = append(eqs, X.Eq(lhs.C[i], body.C[i]))
+			}
+			e.assume(X.Forall(bvs, X.And(eqs...)))
+			e.pc = saved
+			e.specDepth--
+			e.unfolding[fn] = false
+		}
+	}
+	if res.C[0].Open() {
 		return res
 	}
 	key := fmt.Sprintf("%s|%d", fn.String(), res.C[0].ID())
